@@ -5,7 +5,7 @@ from ..srcmodel import AnalysisError, site
 from ..astutil import dotted, const, params, local_defs, is_self_attr, calls_named, same_expr, walk_shallow, enclosing_function, enclosing_class
 from ..dataflow import expand, call_arg
 from ..effects import class_writers, is_empty_ctor, is_const, check_counter, writers
-from ..cfg import build
+from ..cfg import build, truthy_atom, cmp_atom, ge_atom
 from ..selftest import Mutant, Rewrite
 
 EXPLANATION = ("(R1) the outbound sequence number is a monotone counter, used then incremented, and numbered records are built "
@@ -65,17 +65,17 @@ def r1(tree, rep):
 
 def r2(tree, rep):
     fn = tree.func(OUT, "Outbound", "queue_and_send_record")
-    g = build(fn)
+    g = build(fn, split=True)
     app = g.call_nodes(lambda c: dotted(c.func) == "self._outbound_queue.append")
     snd = g.call_nodes(lambda c: dotted(c.func) == "self._connection.send_record")
     qu = g.call_nodes(lambda c: dotted(c.func) == "self._queued_unsent.append")
     ok = len(app) == 1 and g.must_pass(app) and not g.precedes(app, snd + qu) and len(snd) == 1 and len(qu) == 1
     rep.check("C10.R2", "queue_and_send_record appends to the retransmit queue on every path, before any send", ok, site(fn, OUT),
               key="C10.R2:append-first", what="a record can be sent (or skipped) without being kept for retransmission")
-    ct = [n for n in g.nodes(lambda s: isinstance(s, ast.If)) if is_self_attr(g.stmt[n].test, "_connection")]
-    ut = [n for n in g.nodes(lambda s: isinstance(s, ast.If)) if is_self_attr(g.stmt[n].test, "_queued_unsent")]
-    ok = len(ct) == 1 and len(ut) == 1 and not g.guarded_by(ct, snd + qu, 'T') and g.branch_never_reaches(ut[0], 'T', snd) \
-        and not g.guarded_by(ut, qu, 'T') and g.branch_never_reaches(ut[0], 'F', qu)
+    conn = truthy_atom(lambda e: is_self_attr(e, "_connection"))
+    unsent = truthy_atom(lambda e: is_self_attr(e, "_queued_unsent"))
+    ok = len(snd) == 1 and len(qu) == 1 and not g.only_when(snd + qu, conn, True) and not g.only_when(snd, unsent, False) \
+        and not g.only_when(qu, unsent, True)
     rep.check("C10.R2", "with a connection: a record queues behind still-unsent ones, otherwise it is sent now", ok, site(fn, OUT),
               key="C10.R2:behind-unsent", what="a new record can overtake records still waiting in _queued_unsent")
     for c in [c for n in app + snd + qu for c in ast.walk(g.stmt[n]) if isinstance(c, ast.Call) and c.args]:
@@ -135,15 +135,17 @@ def r3(tree, rep):
     rep.check("C10.R3", "stop_using_connection forgets the connection, clears _queued_unsent and pauses, on every path", ok, site(sc, OUT),
               key="C10.R3:stop_using_connection", what="after a connection loss stale unsent records / a dead connection object survive")
     rp = tree.func(OUT, "Outbound", "resumeProducing")
-    g3 = build(rp)
-    ut = [n for n in g3.nodes(lambda s: isinstance(s, ast.If)) if is_self_attr(g3.stmt[n].test, "_queued_unsent")]
+    g3 = build(rp, split=True)
+    unsent3 = truthy_atom(lambda e: is_self_attr(e, "_queued_unsent"))
     pr = g3.call_nodes(lambda c: isinstance(c.func, ast.Attribute) and c.func.attr == "resumeProducing" and not is_self_attr(c.func.value))
     snd = g3.call_nodes(lambda c: dotted(c.func) == "self._connection.send_record")
     pop = g3.call_nodes(lambda c: dotted(c.func) == "self._queued_unsent.popleft")
-    ok = len(ut) == 1 and len(pr) == 1 and len(snd) == 1 and len(pop) == 1 and g3.branch_never_reaches(ut[0], 'T', pr) is False or True
-    if len(ut) == 1 and len(pr) == 1 and len(snd) == 1 and len(pop) == 1:
-        # a producer is resumed only on the path where no unsent record is left (false edge of the unsent test, in this iteration)
-        ok = not g3.guarded_by(ut, pr, 'F')
+    if len(pr) == 1 and len(snd) == 1 and len(pop) == 1 and g3.cond_edges(unsent3, False):
+        # a producer is resumed only on a path where the unsent test was false in this iteration: from every edge on which
+        # records are still unsent, a producer is reached only by going round the loop through the send
+        ok = not g3.only_when(pr, unsent3, False)
+        for (x, y, lab) in g3.cond_edges(unsent3, True):
+            ok = ok and not (set(pr) & g3.reach([y], avoid_nodes=set(snd)))
         c = [c for c in ast.walk(g3.stmt[snd[0]]) if isinstance(c, ast.Call) and dotted(c.func) == "self._connection.send_record"][0]
         v = expand(rp, c.args[0])
         ok = ok and isinstance(v, ast.Call) and dotted(v.func) == "self._queued_unsent.popleft"
@@ -161,26 +163,32 @@ def r3(tree, rep):
 
 def r4_r5(tree, rep):
     fn = tree.func(MGR, "Manager", "got_record")
-    g = build(fn)
-    seq_t = [n for n in g.nodes(lambda s: isinstance(s, ast.If)) if isinstance(g.stmt[n].test, ast.Call) and dotted(g.stmt[n].test.func) == "isinstance"
-             and isinstance(g.stmt[n].test.args[1], ast.Tuple) and {dotted(e) for e in g.stmt[n].test.args[1].elts} == {"Open", "Data", "Close"}]
-    acks = g.call_nodes(lambda c: dotted(c.func) == "self.send_ack" and len(c.args) == 1 and dotted(c.args[0]) == params(fn)[0] + ".seqnum")
-    old_t = [n for n in g.nodes(lambda s: isinstance(s, ast.If)) if isinstance(g.stmt[n].test, ast.Call) and dotted(g.stmt[n].test.func) == "self._inbound.is_record_old"]
-    wm = g.call_nodes(lambda c: dotted(c.func) == "self._inbound.update_ack_watermark" and dotted(c.args[0]) == params(fn)[0] + ".seqnum")
+    g = build(fn, split=True)
+    r0 = params(fn)[0]
+    is_seqnum = lambda e: dotted(expand(fn, e) if isinstance(e, ast.Name) else e) == r0 + ".seqnum"
+    numbered = truthy_atom(lambda e: isinstance(e, ast.Call) and dotted(e.func) == "isinstance" and len(e.args) == 2
+                           and isinstance(e.args[1], ast.Tuple) and {dotted(x) for x in e.args[1].elts} == {"Open", "Data", "Close"})
+    old = truthy_atom(lambda e: isinstance(e, ast.Call) and dotted(e.func) == "self._inbound.is_record_old")
+    acks = g.call_nodes(lambda c: dotted(c.func) == "self.send_ack" and len(c.args) == 1 and is_seqnum(c.args[0]))
+    old_n = g.call_nodes(lambda c: dotted(c.func) == "self._inbound.is_record_old")
+    wm = g.call_nodes(lambda c: dotted(c.func) == "self._inbound.update_ack_watermark" and len(c.args) == 1 and is_seqnum(c.args[0]))
     handles = g.call_nodes(lambda c: (dotted(c.func) or "").startswith("self._inbound.handle_"))
-    ok = len(seq_t) == 1 and len(acks) == 1 and len(old_t) == 1 and len(wm) == 1 and len(handles) == 3
+    num_edges = g.cond_edges(numbered, True)
+    ok = bool(num_edges) and len(acks) == 1 and len(old_n) == 1 and len(wm) == 1 and len(handles) == 3 \
+        and bool(g.cond_edges(old, True)) and bool(g.cond_edges(old, False))
     rep.check("C10.R4", "got_record: shape (numbered-record branch, one ack, one old test, one watermark update, three handlers)", ok, site(fn, MGR),
               key="C10.R4:shape")
     if ok:
-        st = g.branch_targets(seq_t[0], 'T')
-        rep.check("C10.R4", "every numbered record is acknowledged on every path (also old ones)", g.must_pass(acks, start=st, to=[g.exit], explicit_only=True)
-                  and not g.precedes(acks, old_t), site(fn, MGR), key="C10.R4:always-ack",
+        always = all(g.exit not in g.reach([y], avoid_nodes=set(acks), explicit_only=True) for (x, y, lab) in num_edges)
+        rep.check("C10.R4", "every numbered record is acknowledged on every path (also old ones)", always
+                  and not g.precedes(acks, old_n), site(fn, MGR), key="C10.R4:always-ack",
                   what="a numbered record can be processed or dropped without an ack (the peer retransmits forever / never retires it)")
-        rep.check("C10.R4", "an old (already processed) record is dropped: no handler on the old edge", g.branch_never_reaches(old_t[0], 'T', handles + wm),
+        n_old, hit = g.when_never_reaches(old, True, handles + wm)
+        rep.check("C10.R4", "an old (already processed) record is dropped: no handler on the old edge", n_old > 0 and not hit,
                   site(fn, MGR), key="C10.R4:old-dropped", what="a retransmitted record can be delivered a second time")
-        rep.check("C10.R4", "handlers run only past the old-record test, after the watermark update", not g.guarded_by(old_t, handles, 'F')
+        rep.check("C10.R4", "handlers run only past the old-record test, after the watermark update", not g.only_when(handles, old, False)
                   and not g.precedes(wm, handles), site(fn, MGR), key="C10.R4:handlers-after-watermark")
-        rep.check("C10.R4", "numbered-record handling is only reachable for Open/Data/Close", not g.guarded_by(seq_t, handles + wm, 'T'), site(fn, MGR),
+        rep.check("C10.R4", "numbered-record handling is only reachable for Open/Data/Close", not g.only_when(handles + wm, numbered, True), site(fn, MGR),
                   key="C10.R4:seq-branch")
         # dispatch: Open -> handle_open(scid, subprotocol) etc.
         r = params(fn)[0]
@@ -232,9 +240,18 @@ def r4_r5(tree, rep):
             ok = ok and isinstance(w.value, ast.UnaryOp) and isinstance(w.value.op, ast.USub) and const(w.value.operand) == 1
         else:
             v = w.value
-            ok = ok and w.fn == "update_ack_watermark" and isinstance(v, ast.Call) and dotted(v.func) == "max" and len(v.args) == 2 \
+            is_max = isinstance(v, ast.Call) and dotted(v.func) == "max" and len(v.args) == 2 \
                 and any(is_self_attr(a, "_highest_inbound_acked") for a in v.args) \
                 and any(isinstance(a, ast.Name) and a.id in params(uw) for a in v.args)
+            # or:  if seqnum > self._highest_inbound_acked: self._highest_inbound_acked = seqnum
+            is_guarded = False
+            if isinstance(v, ast.Name) and v.id in params(uw) and not local_defs(uw, v.id):
+                gu = build(uw, split=True)
+                higher = cmp_atom(lambda e: isinstance(e, ast.Name) and e.id == v.id, lambda e: is_self_attr(e, "_highest_inbound_acked"),
+                                  (ast.Gt, ast.GtE), (ast.LtE, ast.Lt))
+                node = gu.node_of(w.node)
+                is_guarded = node is not None and not gu.only_when([node], higher, True)
+            ok = ok and w.fn == "update_ack_watermark" and (is_max or is_guarded)
     rep.check("C10.R5", "the ack watermark starts at -1 and is only ever assigned max(itself, seqnum)", ok, site(uw, INB), key="C10.R5:watermark-monotone",
               what="the watermark can move backwards (old records become new again)")
 
